@@ -17,7 +17,7 @@ const (
 	kProves    = "rangeproof.(*Proof).ProvesStatement"
 	kProven    = "rangeproof.(*Proof).ProvenStatement"
 	kNewPS     = "rangeproof.NewProofStructure"
-	kReconRP   = "gabi.(*ProofD).reconstructRangeProofStructures"
+	kReconRP   = "gabi.reconstructRangeProofStructures"
 	rpP        = "<rangeproof.Proof>"
 	rpS        = "<rangeproof.ProofStructure>"
 	pdRP       = "<gabi.ProofD>.RangeProofs"
@@ -320,7 +320,7 @@ func bindingRule(P *Program, R *Report) {
 		bad := 0
 		allInstrs(np, func(i ssa.Instruction) {
 			c, ok := i.(*ssa.Call)
-			if !ok || calleeName(c) != "fmt.Sprintf" {
+			if !ok || !calleeIs(c, "fmt.Sprintf") {
 				return
 			}
 			f := desc(c.Call.Args[0])
@@ -484,7 +484,7 @@ func relationShapeRule(P *Program, R *Report) {
 			order = append(order, fa.X)
 		}
 		v := desc(st.Val)
-		if call, ok := st.Val.(*ssa.Call); ok && calleeName(call) == "fmt.Sprintf" {
+		if call, ok := st.Val.(*ssa.Call); ok && calleeIs(call, "fmt.Sprintf") {
 			f := desc(call.Call.Args[0])
 			if seq, ok := seqOf(call.Call.Args[1]); ok && len(seq) == 1 {
 				v = f + "%" + seq[0].D
